@@ -14,6 +14,7 @@ import multiprocessing as mp
 import os
 import random
 import re
+import subprocess
 import sys
 import time
 import traceback
@@ -254,6 +255,39 @@ def _project(system, ctrl, side):
     return leaf, tuple(vals), armed_id
 
 
+def _tproj(w, actor, a, model):
+    """timer-view projection of one real controller: (phase, delayed call carrying the current token, token)"""
+    leaf = 0 if model == "PWM" else a["leaves"].index(actor.state)
+    token = getattr(actor, "_PoupoolActor__token", None)
+    armed = None
+    for e in w.pending_timers():
+        t = e[2]
+        if t.owner == actor.sim_name and len(t.args) >= 2 and t.args[0] == token:
+            armed = t.args[1]
+    for env in actor.actor_inbox.items:
+        m = env.message
+        if getattr(m, "attr_path", None) == ("do_delayed",) and m.args and m.args[0] == token:
+            armed = m.args[1]
+    armed_id = a["msgs"].index(armed) if armed in a["msgs"] else (-1 if armed is None else -99)
+    return leaf, armed_id, token
+
+
+def _install_arm_recorder():
+    """remember the delay of the last do_delay of every controller (simulator-side wrapper, /repo is untouched)"""
+    import controller.actor as ca
+
+    if getattr(ca.PoupoolActor.do_delay, "_verif_wrapped", False):
+        return
+    orig = ca.PoupoolActor.do_delay
+
+    def do_delay(self, delay, method, *args, **kwargs):
+        self._verif_last_arm = (float(delay), method)
+        return orig(self, delay, method, *args, **kwargs)
+
+    do_delay._verif_wrapped = True
+    ca.PoupoolActor.do_delay = do_delay
+
+
 def _worker(args):
     seed, i, length, corpus_scn = args
     try:
@@ -302,13 +336,73 @@ def _worker(args):
                 mism.append({"actor": name, "view": "timer", "after": msg, "leaf": side["actors"][name]["leaves"][leaf], "armed": (side["actors"][name]["msgs"][armed] if isinstance(armed, int) and armed >= 0 else armed), "at_us": r.world.now_us, "step": r.step_no})
 
         r.world.on_handler = on_handler
+        # step-level record for the timed models: (actor, kind, msg, pre phase, pre armed, post phase, post armed, touched, delay, settings)
+        _install_arm_recorder()
+        tsteps = {}
+        pre_of = {}
+        setting_names = {c: sorted({v[8:] for (_h, _m, _src, v) in side.get("delays", {}).get(c, []) if isinstance(v, str) and v.startswith("setting:")}) for c in side["actors"]}
+
+        def on_step(actor, hname, when):
+            real = actor.sim_name
+            model = "PWM" if real.startswith("PWM") else real
+            a = side["actors"].get(model)
+            if a is None or hname == "<stop>" or not hasattr(actor, "_PoupoolActor__token"):
+                return
+            try:
+                if when == "pre":
+                    actor._verif_last_arm = None
+                    pj = _tproj(r.world, actor, a, model)
+                    if "@" in hname and hname.split("@")[1] == str(pj[2]) and pj[1] == -1:
+                        # the delayed call being delivered has already been taken out of the inbox: it is the armed one
+                        b0 = hname.split("@")[0]
+                        pj = (pj[0], a["msgs"].index(b0) if b0 in a["msgs"] else -99, pj[2])
+                    pre_of[real] = pj
+                    return
+                pre = pre_of.pop(real, None)
+                if pre is None or not r.world.alive(real):
+                    return
+                post = _tproj(r.world, actor, a, model)
+            except Exception:  # noqa: BLE001
+                return
+            touched = 1 if post[2] != pre[2] else 0
+            base = hname.split("@")[0]
+            if "@" in hname:
+                tok = hname.split("@")[1]
+                if str(pre[2]) != tok:
+                    kind, mid = "stale", (a["msgs"].index(base) if base in a["msgs"] else -1)
+                else:
+                    kind, mid = "fire", (a["msgs"].index(base) if base in a["msgs"] else -1)
+            elif base in a["msgs"]:
+                kind, mid = "plain", a["msgs"].index(base)
+            else:
+                kind, mid = "other", -1
+            delay = -1
+            sets = ""
+            if touched and post[1] >= 0:
+                la = getattr(actor, "_verif_last_arm", None)
+                if la is not None and la[1] == a["msgs"][post[1]]:
+                    delay = la[0] * 2
+                    delay = int(delay) if float(delay).is_integer() else -2
+                kv = []
+                for nme in setting_names.get(model, []):
+                    try:
+                        v = getattr(actor, f"_{type(actor).__name__}__{nme}").total_seconds() * 2
+                        kv.append(f"{nme}={int(v)}" if float(v).is_integer() else f"{nme}=-1")
+                    except Exception:  # noqa: BLE001
+                        pass
+                sets = ",".join(kv)
+            key = (model, kind, mid, pre[0], pre[1], post[0], post[1], touched, delay, sets)
+            if key not in tsteps and len(tsteps) < 4000:
+                tsteps[key] = (hname, r.step_no)
+
+        r.world.on_step = on_step
         r.run(scn["actions"])
         asks = sorted({(a, b, t is not None) for (a, b, t, h) in r.world.ask_log if a != "<main>"})
         intervals = sorted({(e[2][0], e[2][1], float(e[2][2])) for e in r.world.log if e[1] == "timer_start"})
         return {"i": i, "scn": scn, "findings": r.findings, "mismatch": mism, "nobs": len(seen_obs), "handlers": sorted(handlers), "events": len(r.world.log), "asks": asks, "error": None, "intervals": intervals,
-                "leaves": sorted({(n, l) for (n, l, _, _) in seen_obs})}
+                "leaves": sorted({(n, l) for (n, l, _, _) in seen_obs}), "tsteps": [list(k) + list(v) for k, v in tsteps.items()]}
     except BaseException:  # noqa: BLE001
-        return {"i": i, "scn": corpus_scn, "findings": [], "mismatch": [], "nobs": 0, "handlers": [], "events": 0, "asks": [], "error": traceback.format_exc()[-1500:], "leaves": [], "intervals": []}
+        return {"i": i, "scn": corpus_scn, "findings": [], "mismatch": [], "nobs": 0, "handlers": [], "events": 0, "asks": [], "error": traceback.format_exc()[-1500:], "leaves": [], "intervals": [], "tsteps": []}
 
 
 def _init_worker():
@@ -326,6 +420,57 @@ def corpus_scenarios():
                 out.append((os.path.basename(p), scn))
         except Exception:  # noqa: BLE001
             pass
+    return out
+
+
+def timed_step_correspondence(res):
+    """every distinct real handler execution (pre phase/armed call, message, post phase/armed call, armed-or-not, delay) must be a
+    step of the timed model (Lean driver `timeddrv` over the regenerated timer-view descriptors and certificates)"""
+    distinct = {}
+    for r in res:
+        for t in r.get("tsteps", []):
+            k = tuple(t[:10])
+            if k not in distinct:
+                distinct[k] = (t[10], t[11], r["scn"])
+    keys = sorted(distinct, key=lambda k: tuple(str(x) for x in k))
+    out = {"distinct_steps": len(keys), "bad": [], "by_kind": {}, "unknown_duration": 0, "driver_error": None}
+    lines, idx = [], []
+    for k in keys:
+        model, kind, mid, pl, pa, ql, qa, touched, delay, sets = k
+        out["by_kind"][kind] = out["by_kind"].get(kind, 0) + 1
+        if kind in ("stale", "other"):
+            # a delayed call with an old token, or a message outside the model (questions, attribute reads/writes): must change nothing
+            if (pl, pa) != (ql, qa) or touched:
+                hname, step, scn = distinct[k]
+                out["bad"].append({"step": list(k), "handler": hname, "reason": "a stale delayed call / an unmodelled message changed the phase or the delayed call", "scenario": scn, "at_step": step})
+            continue
+        if mid < 0 or pa == -99 or qa == -99:
+            hname, step, scn = distinct[k]
+            out["bad"].append({"step": list(k), "handler": hname, "reason": "message or armed call unknown to the model", "scenario": scn, "at_step": step})
+            continue
+        lines.append(f"{model} {kind} {mid} {pl} {pa} {ql} {qa} {touched} {delay} {sets}")
+        idx.append(k)
+    if lines:
+        try:
+            exe = os.path.join(VERIF, "lean", ".lake", "build", "bin", "timeddrv")
+            with FileLock("lake"):
+                pb = subprocess.run(["lake", "build", "timeddrv"], cwd=os.path.join(VERIF, "lean"), capture_output=True, text=True, timeout=3000)
+            if pb.returncode != 0:
+                raise RuntimeError((pb.stdout + pb.stderr)[-800:])
+            p = subprocess.run([exe], input="\n".join(lines) + "\n", capture_output=True, text=True, timeout=1800)
+            answers = p.stdout.split("\n")
+            if p.returncode != 0 or len(answers) < len(lines):
+                raise RuntimeError(f"rc={p.returncode} {p.stderr[-500:]}")
+            for k, ans in zip(idx, answers):
+                if ans == "ok-unknown-duration":
+                    out["unknown_duration"] += 1
+                elif ans != "ok":
+                    hname, step, scn = distinct[k]
+                    out["bad"].append({"step": list(k), "handler": hname, "reason": ans, "scenario": scn, "at_step": step})
+        except Exception as e:  # noqa: BLE001
+            out["driver_error"] = repr(e)[:600]
+    out["n_bad"] = len(out["bad"])
+    out["bad"] = out["bad"][:12]
     return out
 
 
@@ -360,6 +505,7 @@ def exploration(chk, n=None, length=40):
                 if len(agg["mismatches"]) < 10:
                     agg["mismatches"].append({"mismatch": m, "scenario": r["scn"]})
         agg["n_mismatch_scenarios"] = sum(1 for r in res if r["mismatch"])
+        agg["timed"] = timed_step_correspondence(res)
         with open(path, "w") as fh:
             json.dump(agg, fh, default=list)
         return json.load(open(path))
@@ -464,6 +610,16 @@ def run_actor_property(chk, module, theorems, monitor_pids=None, controllers=Non
             distribution={"scenarios": res["scenarios"], "corpus_scenarios": res["corpus"], "events": res["events"], "handlers_executed": len(res["handlers"]), "phases_visited": len(res["leaves"]), "harness_errors": res["n_errors"]},
             detail=res["mismatches"][:3] if res["mismatches"] else None,
         )
+        td = res.get("timed") or {}
+        if td:
+            if td.get("driver_error"):
+                chk.obligation("timed-model driver (lake exe timeddrv) ran", False, td["driver_error"])
+            chk.correspondence(
+                "timed models vs the REAL controllers, step level: every distinct handler execution (phase and armed call before, message, phase and armed call after, armed-or-not, delay of the armed call) must be a step of the regenerated timer-view model from a certified state, with a delay the generated table durAt allows; stale delayed calls and unmodelled messages must change nothing",
+                td.get("distinct_steps", 0), td.get("n_bad", 0),
+                distribution={"by_kind": td.get("by_kind"), "unknown_duration": td.get("unknown_duration")},
+                detail=[{k: b[k] for k in ("step", "handler", "reason", "at_step")} for b in td.get("bad", [])[:4]] or None,
+            )
         chk.extra["handlers_executed"] = res["handlers"]
         chk.extra["phases_visited"] = ["%s.%s" % tuple(x) for x in res["leaves"]] if res["leaves"] and isinstance(res["leaves"][0][1], str) else res["leaves"]
         chk.extra["distinct_nontrivial"] = max(2, len(res["leaves"]))
@@ -481,6 +637,13 @@ def run_actor_property(chk, module, theorems, monitor_pids=None, controllers=Non
     if extra is not None:
         extra(chk, info, res)
     return info, res
+
+
+def timing_theorems(chk, theorems):
+    """timed theorems (Properties/Timing.lean over Model/Timed.lean): phases end on time / last / polls keep their period"""
+    ok = lean.check_theorems(chk, "Poupool.Properties.Timing", theorems)
+    chk.assumptions.append("timed theorems: scheduling assumption `lag` (the armed delayed call is delivered, and any other event handled, no later than lag after the call is due; the property statements use 2 s); a handler takes no time; durations are the values config.ini has at translation time and the duration settings as read by the arming handler")
+    return ok
 
 
 def replay(path):
